@@ -261,7 +261,39 @@ def extract_models(repo, parents):
     return L
 
 
-SECTIONS = [extract_models]
+# ---------------------------------------------------------------------------------------------
+# pool: the surplus-idle test
+# ---------------------------------------------------------------------------------------------
+
+def extract_pool(repo, parents):
+    tree = _parse(repo, "httpcore/_async/connection_pool.py")
+    fn = _find_func(tree, "_assign_requests_to_connections", cls="AsyncConnectionPool")
+    cmps = [n for n in ast.walk(fn) if isinstance(n, ast.Compare) and len(n.comparators) == 1
+            and ast.unparse(n.comparators[0]) == "self._max_keepalive_connections"]
+    if len(cmps) != 1 or not isinstance(cmps[0].ops[0], ast.Gt):
+        raise ExtractError("_assign_requests_to_connections: `<count> > self._max_keepalive_connections` not found exactly once")
+    left = cmps[0].left
+    txt = ast.unparse(left)
+    idle_only = None
+    if isinstance(left, ast.Call) and ast.unparse(left.func) == "len" and len(left.args) == 1 and isinstance(left.args[0], ast.ListComp):
+        lc = left.args[0]
+        if len(lc.generators) == 1 and ast.unparse(lc.generators[0].iter) == "self._connections":
+            var = ast.unparse(lc.generators[0].target)
+            ifs = [ast.unparse(i) for i in lc.generators[0].ifs]
+            if not ifs and ast.unparse(lc.elt) == f"{var}.is_idle()":
+                idle_only = False          # a list of booleans: its length is the number of ALL connections
+            elif ifs == [f"{var}.is_idle()"]:
+                idle_only = True
+    if idle_only is None:
+        raise ExtractError(f"surplus-idle count expression not recognised: {txt}")
+    lims = [n for n in ast.walk(fn) if isinstance(n, ast.Compare) and ast.unparse(n) == "len(self._connections) < self._max_connections"]
+    if len(lims) != 1:
+        raise ExtractError("`len(self._connections) < self._max_connections` not found exactly once")
+    return [f"/-- the surplus-idle test compares `{txt}` with the keep-alive limit -/",
+            "def poolCountsIdleOnly : Bool := " + ("true" if idle_only else "false")]
+
+
+SECTIONS = [extract_models, extract_pool]
 
 
 def generate(repo):
